@@ -30,7 +30,7 @@ Section WF.
   Variable p : program.
 
   Definition struct_kinds (id : nat) : option (list kind) :=
-    match nth_error p id with Some (IStruct _ ps _ _ _) => Some ps | _ => None end.
+    match nth_error p id with Some (IStruct _ ps _ _ _) => Some ps | Some (IEnum _ ps _ _ _) => Some ps | _ => None end.
   Definition trait_kinds (id : nat) : option (list kind) :=
     match nth_error p id with Some (ITrait _ ps _ _) => Some ps | _ => None end.
 
@@ -48,6 +48,8 @@ Section WF.
     | TScalar _ => True
     | TTuple ts => all (wf_ty scopes) ts
     | TRef _ l t => wf_lt scopes l /\ wf_ty scopes t
+    | TRaw _ t | TSlice t => wf_ty scopes t
+    | TStr | TNever => True
     end
   with wf_garg (scopes : list (list kind)) (a : igarg) {struct a} : Prop :=
     match a with GTy t => wf_ty scopes t | GLt l => wf_lt scopes l end.
@@ -67,6 +69,7 @@ Section WF.
   Definition wf_item (it : iitem) : Prop :=
     match it with
     | IStruct _ ps _ fields wcs => all (wf_ty [ps]) fields /\ all (wf_qwc [ps]) wcs
+    | IEnum _ ps _ variants wcs => all (all (wf_ty [ps])) variants /\ all (wf_qwc [ps]) wcs
     | ITrait _ ps _ wcs => all (wf_qwc [KTy :: ps]) wcs
     | IImpl ps _ _ tr args self wcs => wf_trait_ref [ps] tr args /\ wf_ty [ps] self /\ all (wf_qwc [ps]) wcs
     end.
@@ -77,6 +80,7 @@ Fixpoint iheaders (struct_ : bool) (i : nat) (p : program) : list header :=
   match p with
   | [] => []
   | IStruct n ps _ _ _ :: r => (if struct_ then [{| h_name := n; h_id := i; h_kinds := ps |}] else []) ++ iheaders struct_ (S i) r
+  | IEnum n ps _ _ _ :: r => (if struct_ then [{| h_name := n; h_id := i; h_kinds := ps |}] else []) ++ iheaders struct_ (S i) r
   | ITrait n ps _ _ :: r => (if struct_ then [] else [{| h_name := n; h_id := i; h_kinds := ps |}]) ++ iheaders struct_ (S i) r
   | IImpl _ _ _ _ _ _ _ :: r => iheaders struct_ (S i) r
   end.
@@ -107,6 +111,16 @@ Qed.
 
 Lemma iheaders_struct_In p : forall i id name ps fl fs wcs,
   nth_error p id = Some (IStruct name ps fl fs wcs) ->
+  In {| h_name := name; h_id := i + id; h_kinds := ps |} (iheaders true i p).
+Proof.
+  induction p as [|it r IH]; intros i [|id] *; cbn [nth_error]; try discriminate.
+  - intros [= ->]. cbn. rewrite Nat.add_0_r. now left.
+  - intros H. specialize (IH (S i) id _ _ _ _ _ H). replace (i + S id) with (S i + id) by lia.
+    destruct it; cbn; auto.
+Qed.
+
+Lemma iheaders_enum_In p : forall i id name ps fl vs wcs,
+  nth_error p id = Some (IEnum name ps fl vs wcs) ->
   In {| h_name := name; h_id := i + id; h_kinds := ps |} (iheaders true i p).
 Proof.
   induction p as [|it r IH]; intros i [|id] *; cbn [nth_error]; try discriminate.
@@ -172,17 +186,20 @@ Section Types.
     struct_kinds p id = Some ks ->
     find_header (name_of names id) structs = Some {| h_name := name_of names id; h_id := id; h_kinds := ks |}.
   Proof.
-    unfold struct_kinds. destruct (nth_error p id) as [[name ps fl fs wcs| |]|] eqn:E; try discriminate.
-    intros [= <-]. unfold names. rewrite (name_of_nth p id _ E). cbn [item_name].
-    apply (find_header_In {| h_name := name; h_id := id; h_kinds := ps |}); [apply Hnames|].
-    apply (iheaders_struct_In p 0 id name ps fl fs wcs E).
+    unfold struct_kinds. destruct (nth_error p id) as [[name ps fl fs wcs|name ps fl vs wcs| |]|] eqn:E; try discriminate.
+    - intros [= <-]. unfold names. rewrite (name_of_nth p id _ E). cbn [item_name].
+      apply (find_header_In {| h_name := name; h_id := id; h_kinds := ps |}); [apply Hnames|].
+      apply (iheaders_struct_In p 0 id name ps fl fs wcs E).
+    - intros [= <-]. unfold names. rewrite (name_of_nth p id _ E). cbn [item_name].
+      apply (find_header_In {| h_name := name; h_id := id; h_kinds := ps |}); [apply Hnames|].
+      apply (iheaders_enum_In p 0 id name ps fl vs wcs E).
   Qed.
 
   Lemma find_trait id ks :
     trait_kinds p id = Some ks ->
     find_header (name_of names id) traits = Some {| h_name := name_of names id; h_id := id; h_kinds := ks |}.
   Proof.
-    unfold trait_kinds. destruct (nth_error p id) as [[| name ps fl wcs|]|] eqn:E; try discriminate.
+    unfold trait_kinds. destruct (nth_error p id) as [[| | name ps fl wcs|]|] eqn:E; try discriminate.
     intros [= <-]. unfold names. rewrite (name_of_nth p id _ E). cbn [item_name].
     apply (find_header_In {| h_name := name; h_id := id; h_kinds := ps |}); [apply Hnames|].
     apply (iheaders_trait_In p 0 id name ps fl wcs E).
@@ -193,7 +210,8 @@ Section Types.
     | TVar _ | TScalar _ => 1
     | TAdt _ args => S (list_sum (map isize_garg args))
     | TTuple ts => S (list_sum (map isize_ty ts))
-    | TRef _ _ t => S (isize_ty t)
+    | TRef _ _ t | TRaw _ t | TSlice t => S (isize_ty t)
+    | TStr | TNever => 1
     end
   with isize_garg (a : igarg) : nat := match a with GTy t => S (isize_ty t) | GLt _ => 1 end.
 
@@ -217,7 +235,7 @@ Section Types.
       - pose proof (in_list_sum _ isize_garg a args Ha). lia.
       - eapply all_In; eauto. }
     split.
-    - intros t scopes Hs Hw. destruct t as [v|id args|s|ts|m l t]; cbn [isize_ty] in Hs; cbn [wf_ty] in Hw; cbn [u_ty r_ty].
+    - intros t scopes Hs Hw. destruct t as [v|id args|s|ts|m l t|m t|t| |]; cbn [isize_ty] in Hs; cbn [wf_ty] in Hw; cbn [u_ty r_ty].
       + rewrite r_var_u_var by exact Hw. reflexivity.
       + destruct Hw as [Hk Ha]. rewrite (find_struct id _ Hk). cbn [obind].
         change ((fix go (l : list agarg) : option (list igarg) :=
@@ -235,6 +253,10 @@ Section Types.
         * eapply all_In; eauto.
       + destruct Hw as [Hl Ht]. rewrite r_lt_u_lt by exact Hl. cbn [obind].
         rewrite IHt; [reflexivity|lia|exact Ht].
+      + rewrite IHt; [reflexivity|lia|exact Hw].
+      + rewrite IHt; [reflexivity|lia|exact Hw].
+      + reflexivity.
+      + reflexivity.
     - intros a scopes Hs Hw. destruct a as [t|l]; cbn [isize_garg] in Hs; cbn [wf_garg] in Hw; cbn [u_garg r_garg].
       + rewrite IHt; [reflexivity|lia|exact Hw].
       + rewrite r_lt_u_lt by exact Hw. reflexivity.
@@ -288,11 +310,16 @@ Lemma r_item_u_item p it :
   wf_names p -> wf_item p it ->
   r_item (iheaders true 0 p) (iheaders false 0 p) (u_item (map item_name p) it) = Some it.
 Proof.
-  intros Hn Hw. destruct it as [name ps fl fs wcs|name ps fl wcs|ps up pos tr args self wcs]; cbn [wf_item u_item r_item] in *.
+  intros Hn Hw. destruct it as [name ps fl fs wcs|name ps fl vs wcs|name ps fl wcs|ps up pos tr args self wcs]; cbn [wf_item u_item r_item] in *.
   - destruct Hw as [Hf Hq].
     rewrite (omap_map_id _ _ (r_ty (iheaders true 0 p) false [ps]) (u_ty (map item_name p) false 1) fs).
     + cbn [obind]. rwl (r_qwcs_u p Hn false [ps] wcs Hq). reflexivity.
     + intros t Ht. apply (r_ty_u_ty p Hn false [ps] t). eapply all_In; eauto.
+  - destruct Hw as [Hv Hq].
+    rewrite (omap_map_id _ _ (omap (r_ty (iheaders true 0 p) false [ps])) (map (u_ty (map item_name p) false 1)) vs).
+    + cbn [obind]. rwl (r_qwcs_u p Hn false [ps] wcs Hq). reflexivity.
+    + intros fs Hfs. apply omap_map_id. intros t Ht. apply (r_ty_u_ty p Hn false [ps] t).
+      eapply all_In; [|exact Ht]. eapply all_In; eauto.
   - rwl (r_qwcs_u p Hn true [KTy :: ps] wcs Hw). reflexivity.
   - destruct Hw as [Ht [Hs Hq]].
     rwl (r_trait_ref_u p Hn false [ps] tr args Ht). cbn [obind fst snd].
